@@ -17,8 +17,9 @@ func runOne(t *testing.T, c *Case, src, sched *choice.Source, out *wproto.Out, i
 	out.Begin(id)
 	out.SetOnStuck(func() {
 		c.Tape, c.Sched, c.Pol = src.Tape(), sched.Tape(), sched.AuxTape()
-		out.Finding(id, "livelock|never-returned", "livelock", "the run exceeded its scheduler step budget and, left to run freely, still had not returned three seconds later: an endless loop", c)
-		out.End(id, []string{"livelock|never-returned"})
+		sig, msg := out.StuckWhat()
+		out.Finding(id, sig, "livelock", msg, c)
+		out.End(id, []string{sig})
 		out.Count("evaluations", 1)
 		out.Finish("restart", id+1)
 	})
@@ -90,6 +91,7 @@ func TestWorker(t *testing.T) {
 		t.Fatal(err)
 	}
 	out.StuckFlag = &simsched.Stuck
+	out.StallProbe = simsched.StallProbe
 	out.SimActive = simsched.Active
 	out.Watch(45 * time.Second)
 	kinds := job.KindList(Kinds)
